@@ -286,4 +286,265 @@ theorem delete_refines {s : SL} (h : OInv s) (j : Nat) (x : Node) (hj : (nodes s
   unfold ZSetA.remove
   exact (filter_key_eraseIdx (nodes s) j x hj h.keys).symm
 
+/-! ### `Put`, `Remove`, `PopMin`, `PopMax` -/
+
+theorem find_eq (s : SL) (k : Bytes) : Skiplist.find? s k = ZSetA.find? (nodes s) k := by
+  simp only [Skiplist.find?, ZSetA.find?, nodes, List.find?_map]
+  rfl
+
+theorem find_some_idx {ns : List Node} {k : Bytes} {n : Node} (h : ZSetA.find? ns k = some n) :
+    n.key = k ∧ ∃ j : Nat, ns[j]? = some n := by
+  unfold ZSetA.find? at h
+  have h1 := List.find?_some h
+  have h2 := List.mem_of_find?_eq_some h
+  rw [List.mem_iff_getElem?] at h2
+  exact ⟨by simpa using h1, h2⟩
+
+theorem find_none_fresh {ns : List Node} {k : Bytes} (h : ZSetA.find? ns k = none) : ∀ x ∈ ns, x.key ≠ k := by
+  unfold ZSetA.find? at h
+  rw [List.find?_eq_none] at h
+  intro x hx
+  simpa using h x hx
+
+theorem insertSorted_keys_nodup (ns : List Node) (n : Node) (hk : (ns.map (·.key)).Nodup) (hf : ∀ x ∈ ns, x.key ≠ n.key) :
+    ((ZSetA.insertSorted ns n).map (·.key)).Nodup := by
+  induction ns with
+  | nil => simp [ZSetA.insertSorted]
+  | cons a rest ih =>
+    simp only [List.map_cons, List.nodup_cons] at hk
+    simp only [ZSetA.insertSorted]
+    split
+    · simp only [List.map_cons, List.nodup_cons]
+      refine ⟨?_, hk.1, hk.2⟩
+      intro hm
+      simp only [List.mem_cons, List.mem_map] at hm
+      rcases hm with e | ⟨y, hy, e⟩
+      · exact hf a (List.mem_cons_self ..) e.symm
+      · exact hf y (List.mem_cons_of_mem _ hy) e
+    · simp only [List.map_cons, List.nodup_cons]
+      refine ⟨?_, ih hk.2 (fun x hx => hf x (List.mem_cons_of_mem _ hx))⟩
+      intro hm
+      rw [List.mem_map] at hm
+      obtain ⟨y, hy, e⟩ := hm
+      rcases (mem_insertSorted rest n y).mp hy with rfl | hy'
+      · exact hf a (List.mem_cons_self ..) e.symm
+      · exact hk.1 (List.mem_map.mpr ⟨y, hy', e⟩)
+
+theorem gap_map (g : Tower → Tower) (hg : ∀ t, (g t).spans = t.spans) (i : Nat) (ts : List Tower) :
+    gap i (ts.map g) = gap i ts := by
+  unfold gap
+  rw [nextAt_heights (l := ts.map g) (l' := ts) (by simp [List.map_map, Function.comp, hg])]
+  simp
+
+/-- rewriting node payloads leaves `SpansOK` alone -/
+theorem spansOK_map {lv : Nat} (g : Tower → Tower) (hg : ∀ t, (g t).spans = t.spans) (l : List Tower) :
+    SpansOK lv (l.map g) ↔ SpansOK lv l := by
+  induction l with
+  | nil => simp [SpansOK]
+  | cons t ts ih => simp only [List.map_cons, SpansOK, ih, hg, gap_map g hg]
+
+theorem spansOK_cons_map {lv : Nat} (g : Tower → Tower) (hg : ∀ t, (g t).spans = t.spans) (hd : Tower) (ts : List Tower) :
+    SpansOK lv (hd :: ts.map g) ↔ SpansOK lv (hd :: ts) := by
+  simp only [SpansOK, gap_map g hg, spansOK_map g hg]
+
+theorem put_refines {s : SL} (h : OInv s) (k : Bytes) (sc : Int) (v : Bytes) (lvl : Nat) (hl1 : 1 ≤ lvl) (hl2 : lvl ≤ maxLevel) :
+    OInv (Skiplist.put s k sc v lvl) ∧ nodes (Skiplist.put s k sc v lvl) = ZSetA.put (nodes s) k sc v := by
+  have hsortedPut : Sorted (ZSetA.put (nodes s) k sc v) := put_sorted _ _ _ _ h.sorted
+  unfold Skiplist.put ZSetA.put
+  rw [find_eq]
+  cases hf : ZSetA.find? (nodes s) k with
+  | none =>
+    simp only
+    have hfresh := find_none_fresh hf
+    obtain ⟨hinv', hn'⟩ := insertNode_refines h ⟨k, sc, v⟩ lvl hl1 hl2 hfresh
+    refine ⟨⟨hinv', ?_, ?_⟩, hn'⟩
+    · rw [hn']; exact insertSorted_sorted _ _ h.sorted hfresh
+    · rw [hn']; exact insertSorted_keys_nodup _ _ h.keys hfresh
+  | some n =>
+    simp only
+    obtain ⟨hnk, j, hj⟩ := find_some_idx hf
+    by_cases hsc : n.score = sc
+    · simp only [hsc, if_true]
+      obtain ⟨hd, ts, eall, hhd⟩ := h.inv.hdr
+      have hn : nodes s = ts.map (·.node) := by simp [nodes, eall]
+      let g : Tower → Tower := fun t => if t.node.key = k then { t with node := { t.node with value := v } } else t
+      have hg : ∀ t, (g t).spans = t.spans := by intro t; simp only [g]; split <;> rfl
+      simp only [eall]
+      change OInv { level := s.level, length := s.length, all := hd :: ts.map g } ∧
+        nodes { level := s.level, length := s.length, all := hd :: ts.map g } = _
+      have hnodes' : nodes { s with all := hd :: ts.map g } = (nodes s).map fun x => if x.key = k then { x with value := v } else x := by
+        rw [hn]
+        simp only [nodes, List.tail_cons, List.map_map]
+        apply List.map_congr_left
+        intro t _
+        simp only [Function.comp, g]
+        split <;> rfl
+      refine ⟨⟨⟨⟨hd, ts.map g, rfl, hhd⟩, h.inv.lvl, ?_, ?_, ?_⟩, ?_, ?_⟩, hnodes'⟩
+      · have := h.inv.len; rw [eall] at this; simpa using this
+      · intro t ht
+        simp only [List.tail_cons, List.mem_map] at ht
+        obtain ⟨t0, ht0, rfl⟩ := ht
+        rw [hg]
+        exact h.inv.hts t0 (by rw [eall]; exact ht0)
+      · have hs := h.inv.spans
+        rw [eall] at hs
+        exact (spansOK_cons_map g hg hd ts).mpr hs
+      · rw [hnodes']
+        have := hsortedPut
+        unfold ZSetA.put at this
+        rw [hf] at this
+        simpa [hsc] using this
+      · rw [hnodes', List.map_map]
+        have : ((fun x : Node => x.key) ∘ fun x => if x.key = k then { x with value := v } else x) = fun x => x.key := by
+          funext x; simp only [Function.comp]; split <;> rfl
+        rw [this]; exact h.keys
+    · simp only [hsc, if_false]
+      have hnk' : n.key = k := hnk
+      obtain ⟨_, hinv1, hrem, _⟩ := delete_refines h j n hj
+      have hrem : nodes (delete s n.score n.key).1 = ZSetA.remove (nodes s) k := by rw [hrem, hnk']
+      have h1 : OInv (delete s n.score n.key).1 := by
+        refine ⟨hinv1, ?_, ?_⟩
+        · rw [hrem]; exact remove_sorted _ _ h.sorted
+        · rw [hrem]
+          unfold ZSetA.remove
+          exact List.Nodup.sublist (List.Sublist.map _ List.filter_sublist) h.keys
+      have hfresh : ∀ x ∈ nodes (delete s n.score n.key).1, x.key ≠ (⟨k, sc, v⟩ : Node).key := by
+        intro x hx
+        rw [hrem] at hx
+        exact ((mem_remove _ _ _).mp hx).2
+      obtain ⟨hinv', hn'⟩ := insertNode_refines h1 ⟨k, sc, v⟩ lvl hl1 hl2 hfresh
+      rw [hrem] at hn'
+      refine ⟨⟨hinv', ?_, ?_⟩, hn'⟩
+      · rw [hn']
+        exact insertSorted_sorted _ _ (remove_sorted _ _ h.sorted) (fun x hx => ((mem_remove _ _ _).mp hx).2)
+      · rw [hn']
+        apply insertSorted_keys_nodup
+        · unfold ZSetA.remove
+          exact List.Nodup.sublist (List.Sublist.map _ List.filter_sublist) h.keys
+        · intro x hx; exact ((mem_remove _ _ _).mp hx).2
+
+theorem oinv_of_delete {s : SL} (h : OInv s) (j : Nat) (x : Node) (hj : (nodes s)[j]? = some x) :
+    OInv (delete s x.score x.key).1 := by
+  obtain ⟨_, hinv1, hrem, _⟩ := delete_refines h j x hj
+  refine ⟨hinv1, ?_, ?_⟩
+  · rw [hrem]; exact remove_sorted _ _ h.sorted
+  · rw [hrem]
+    unfold ZSetA.remove
+    exact List.Nodup.sublist (List.Sublist.map _ List.filter_sublist) h.keys
+
+theorem remove_refines {s : SL} (h : OInv s) (k : Bytes) :
+    OInv (Skiplist.remove s k).1 ∧ nodes (Skiplist.remove s k).1 = ZSetA.remove (nodes s) k ∧
+    (Skiplist.remove s k).2 = ZSetA.find? (nodes s) k := by
+  unfold Skiplist.remove
+  rw [find_eq]
+  cases hf : ZSetA.find? (nodes s) k with
+  | none =>
+    refine ⟨h, ?_, rfl⟩
+    simp only
+    unfold ZSetA.remove
+    rw [List.filter_eq_self.mpr]
+    intro x hx
+    simpa using find_none_fresh hf x hx
+  | some n =>
+    obtain ⟨hnk, j, hj⟩ := find_some_idx hf
+    obtain ⟨_, _, hrem, _⟩ := delete_refines h j n hj
+    exact ⟨oinv_of_delete h j n hj, by simp only; rw [hrem, hnk], rfl⟩
+
+theorem fwd_zero_zero {s : SL} (hinv : Inv s) :
+    fwd s.all 0 0 = if 1 < s.all.length then some 1 else none := by
+  obtain ⟨hd, ts, eall, _⟩ := hinv.hdr
+  unfold fwd
+  rw [eall]
+  cases ts with
+  | nil => simp [nextAt]
+  | cons t rest =>
+    have hpos := hinv.heightPos (q := 1) (by rw [eall]; simp)
+    rw [eall] at hpos
+    simp only [heightOf, List.getElem?_cons_succ, List.getElem?_cons_zero, Option.map_some, Option.getD_some] at hpos
+    simp only [List.drop_succ_cons, List.drop_zero, nextAt]
+    rw [if_pos (by omega)]
+    simp
+
+theorem peekMin_refines {s : SL} (hinv : Inv s) : peekMin s = (nodes s).head? := by
+  obtain ⟨hd, ts, eall, _⟩ := hinv.hdr
+  unfold peekMin
+  rw [fwd_zero_zero hinv, eall]
+  cases ts with
+  | nil => simp [nodes, eall]
+  | cons t rest => simp [nodes, eall, nodeOf]
+
+theorem peekMax_refines (s : SL) : peekMax s = (nodes s).getLast? := by
+  unfold peekMax nodes
+  rw [List.getLast?_map]
+
+theorem popMin_refines {s : SL} (h : OInv s) :
+    OInv (Skiplist.popMin s).1 ∧ nodes (Skiplist.popMin s).1 = (ZSetA.popMin (nodes s)).2 ∧
+    (Skiplist.popMin s).2 = (ZSetA.popMin (nodes s)).1 := by
+  unfold Skiplist.popMin
+  rw [peekMin_refines h.inv]
+  cases hns : nodes s with
+  | nil => simp only [List.head?_nil, ZSetA.popMin]; exact ⟨h, hns, by first | rfl | trivial⟩
+  | cons x xs =>
+    simp only [List.head?_cons, ZSetA.popMin]
+    have hj : (nodes s)[0]? = some x := by rw [hns]; rfl
+    have hfind : ZSetA.find? (nodes s) x.key = some x := by
+      rw [hns]; simp [ZSetA.find?]
+    obtain ⟨_, _, _, herase⟩ := delete_refines h 0 x hj
+    have hrm : Skiplist.remove s x.key = ((delete s x.score x.key).1, some x) := by
+      unfold Skiplist.remove; rw [find_eq, hfind]
+    rw [hrm]
+    refine ⟨oinv_of_delete h 0 x hj, ?_, by first | rfl | trivial⟩
+    simp only
+    rw [herase, hns]; rfl
+
+theorem popMax_refines {s : SL} (h : OInv s) :
+    OInv (Skiplist.popMax s).1 ∧ nodes (Skiplist.popMax s).1 = (ZSetA.popMax (nodes s)).2 ∧
+    (Skiplist.popMax s).2 = (ZSetA.popMax (nodes s)).1 := by
+  unfold Skiplist.popMax ZSetA.popMax
+  rw [peekMax_refines]
+  cases hl : (nodes s).getLast? with
+  | none => exact ⟨h, rfl, rfl⟩
+  | some x =>
+    simp only
+    have hne : nodes s ≠ [] := by intro e; rw [e] at hl; simp at hl
+    have hlen : 0 < (nodes s).length := List.length_pos_iff.mpr hne
+    have hj : (nodes s)[(nodes s).length - 1]? = some x := by
+      rw [List.getLast?_eq_getElem?] at hl; exact hl
+    have hfind : ZSetA.find? (nodes s) x.key = some x := by
+      unfold ZSetA.find?
+      rw [List.find?_eq_some_iff_getElem]
+      refine ⟨by simp, (nodes s).length - 1, by omega, ?_, ?_⟩
+      · have := List.getElem?_eq_getElem (l := nodes s) (i := (nodes s).length - 1) (by omega)
+        rw [hj] at this; exact (Option.some.inj this).symm
+      · intro j' hj'
+        have hk := h.keys
+        unfold List.Nodup at hk
+        rw [List.pairwise_iff_getElem] at hk
+        have hjl' : j' < (nodes s).length := by omega
+        have hx : (nodes s)[(nodes s).length - 1] = x := by
+          have := List.getElem?_eq_getElem (l := nodes s) (i := (nodes s).length - 1) (by omega)
+          rw [hj] at this; exact (Option.some.inj this).symm
+        have := hk j' ((nodes s).length - 1) (by simpa using hjl') (by simp; omega) hj'
+        simp only [List.getElem_map, hx] at this
+        simpa using this
+    obtain ⟨_, _, _, herase⟩ := delete_refines h _ x hj
+    have hrm : Skiplist.remove s x.key = ((delete s x.score x.key).1, some x) := by
+      unfold Skiplist.remove; rw [find_eq, hfind]
+    rw [hrm]
+    refine ⟨oinv_of_delete h _ x hj, ?_, by first | rfl | trivial⟩
+    simp only
+    rw [herase, List.eraseIdx_eq_take_drop_succ, List.dropLast_eq_take]
+    have : (nodes s).length - 1 + 1 = (nodes s).length := by omega
+    rw [this, List.drop_length, List.append_nil]
+
+theorem oinv_empty : OInv Skiplist.empty := by
+  refine ⟨⟨⟨_, [], rfl, by simp [maxLevel]⟩, by decide, by simp [Skiplist.empty], by simp [Skiplist.empty], ?_⟩, ?_, ?_⟩
+  · refine ⟨?_, trivial⟩
+    intro i _ hi
+    have : i = 0 := by simp only [Skiplist.empty] at hi; omega
+    subst this
+    decide
+  · simp [Skiplist.empty, nodes, Sorted]
+  · simp [Skiplist.empty, nodes]
+
 end NutsProofs.SkipL
